@@ -478,13 +478,14 @@ func runC05R5(c *eng.Ctx, r *eng.RuleCtx) {
 			return true
 		}
 		n++
-		loop, _ := eng.LoopOf(body.Lit.Body, as.Pos()).(*ast.RangeStmt)
-		loopOK := loop != nil && eng.IsAscendingLoop(info, loop) && eng.IsField(info, loop.X, items) && loop.Value != nil
-		var elem types.Object
+		el := elemLoopAt(info, body.Lit.Body, as.Pos())
+		loopOK := el != nil && !el.Desc && eng.IsField(info, el.Base, items)
+		isElem := func(x ast.Expr) bool { return loopOK && el.IsElem(x) }
+		var loop ast.Stmt
 		if loopOK {
-			elem = eng.SelObj(info, loop.Value)
+			loop = el.Stmt
 		}
-		argOK := len(ap.Args) == 2 && eng.SelObj(info, ap.Args[0]) == nv && elem != nil && eng.SelObj(info, ap.Args[1]) == elem && !ap.Ellipsis.IsValid()
+		argOK := len(ap.Args) == 2 && eng.SelObj(info, ap.Args[0]) == nv && isElem(ap.Args[1]) && !ap.Ellipsis.IsValid()
 		node := g.NodeOf(as)
 		// control dependence: only via the true edge of filterFn(elem)
 		isPred := func(fc eng.Fact) bool {
@@ -495,7 +496,7 @@ func runC05R5(c *eng.Ctx, r *eng.RuleCtx) {
 			if !ok || eng.CalleeOf(info, cl) != fn || len(cl.Args) != 1 {
 				return false
 			}
-			return eng.SelObj(info, cl.Args[0]) == elem
+			return isElem(cl.Args[0])
 		}
 		cd := node != nil && g.OnlyVia(node, nil, g.FactEdge(isPred))
 		// and every true outcome appends: from the true edge no path reaches the next iteration/exit without the append
@@ -511,19 +512,16 @@ func runC05R5(c *eng.Ctx, r *eng.RuleCtx) {
 			// paths that never take the false edge of the predicate and never append must not exist through the loop body:
 			// check: starting at loop body entry, avoiding false-edges and the append node, the loop head is not reachable again.
 			var bodyEntry *eng.GNode
-			for _, gn := range g.Nodes {
-				if gn.Node == nil && gn.Block.Stmt == ast.Stmt(loop) && gn.Block.Kind.String() == "RangeBody" {
-					bodyEntry = gn
-				}
+			isHead := func(*eng.GNode) bool { return false }
+			if loop != nil {
+				bodyEntry = loopBodyEntryOf(g, loop)
+				isHead = isLoopHeadOf(loop)
 			}
 			if bodyEntry != nil {
 				reach := g.Reach(eng.Query{From: []*eng.GNode{bodyEntry}, AvoidNode: func(m *eng.GNode) bool { return m == node }, AvoidEdge: g.FactEdge(negPred)})
 				back := false
 				for gn := range reach {
-					if gn.Node == nil && gn.Block.Stmt == ast.Stmt(loop) && gn.Block.Kind.String() == "RangeLoop" {
-						back = true
-					}
-					if gn.Exit {
+					if isHead(gn) || gn.Exit {
 						back = true
 					}
 				}
